@@ -164,7 +164,7 @@ def dump (pre s : St) (errNum : Nat := s.it.errNum) : String :=
   " err=" ++ toString errNum ++
   " mr=" ++ showBool s.it.mathRaise ++
   " ev=" ++ toString (s.it.evGosub.length + s.it.evEnabled.length) ++
-  " dp=" ++ toString s.it.dataPos ++
+  " dp=" ++ (if s.it.dataPos = 0 then "0" else "1") ++
   " rnd=" ++ showBool (s.seed == initSeed) ++
   " files=" ++ toString s.files.length ++
   " fre=" ++ toString (free m) ++
